@@ -647,16 +647,16 @@ impl Interaction {
             InteractionType::Full(false) => {
                 // Mask is 1s along the lower n+1 bits.
                 let mask = !(std::usize::MAX << (self.n << 1));
-                // Check that each index up to n is equal to its bit-flip counterpart (up to 2n).
-                (0..1usize << self.n).all(|indx| {
+                // Check that each of the 2^(2n) entries is equal to its bit-flip counterpart.
+                (0..1usize << (self.n << 1)).all(|indx| {
                     (self.mat[indx] - self.mat[(!indx) & mask]).abs() < std::f64::EPSILON
                 })
             }
             InteractionType::Diagonal => {
                 // Mask is 1s along the lower n bits.
                 let mask = !(std::usize::MAX << self.n);
-                // Check that each index up to n is equal to its bit-flip counterpart (up to 2n).
-                (0..1usize << (self.n >> 1)).all(|indx| {
+                // Check that each of the 2^n entries is equal to its bit-flip counterpart.
+                (0..1usize << self.n).all(|indx| {
                     (self.mat[indx] - self.mat[(!indx) & mask]).abs() < std::f64::EPSILON
                 })
             }
